@@ -1322,6 +1322,9 @@ class LogixDriver(CIPDriver):
 
             tag_info = self._get_tag_info(base, attrs)
 
+            if tag_info["data_type"] is None:  # the controller reported a type code that is not in DataTypes
+                raise RequestError(f"Tag has an unsupported data type: {request_tag}")
+
             if tag_info["data_type"] == "DWORD":
                 _tag, idx = util.get_array_index(tag)
                 if idx is not None:
